@@ -1,7 +1,7 @@
 (* C12 — property theorems only.  Each is closed by [exact <lemma>] and followed by
    Print Assumptions; the statements are pinned here so they cannot be quietly weakened. *)
 From FB Require Import C12.Model C12.TheoryTree C12.TheoryOrd C12.TheoryDet C12.TheoryPlace C12.TheoryTok
-  C12.TheoryRT C12.Theory.
+  C12.TheoryRT C12.TheoryFuel C12.Theory.
 From Coq Require Import Permutation Sorted.
 
 (* Th 1: writing a mapping set that satisfies the (decidable) hypotheses as one Enigma stream and
@@ -32,6 +32,13 @@ Theorem C12_one_file : forall M fs, keys_nodup M -> files M = Ok fs ->
 Proof. exact one_file. Qed.
 Print Assumptions C12_one_file.
 
+(* figure_out_files succeeds exactly when the file names of the parent-free classes are free of
+   surrogates and pairwise distinct (two classes with one file name are refused, not dropped) *)
+Theorem C12_files_ok_iff : forall M, (exists fs, files M = Ok fs) <->
+  forallb (fun c => scalar (file_name c)) (roots M) = true /\ NoDup (map file_name (roots M)).
+Proof. exact files_ok_iff. Qed.
+Print Assumptions C12_files_ok_iff.
+
 (* Th 3: nesting in the text mirrors source-name nesting: a class is written at the indentation
    given by the number of ancestors reached by following parent names as long as they are in the set *)
 Theorem C12_nesting_mirrors : forall M fs nodes x dx, keys_nodup M -> files M = Ok fs -> file_nodes M fs = Ok nodes ->
@@ -55,6 +62,13 @@ Print Assumptions C12_files_sorted.
 Theorem C12_tree_fuel_suffices : forall M r, keys_nodup M -> In r M -> tree_nodes M r = Ok (T (bound M) M r 0).
 Proof. exact tree_nodes_T. Qed.
 Print Assumptions C12_tree_fuel_suffices.
+
+(* and so is the fuel of the reader model, on every input (malformed ones included): any fuel above
+   the number of lines gives the answer of read_into, so no Err of the model is an out-of-fuel artefact *)
+Theorem C12_reader_fuel_irrelevant : forall acc text F, (length (elines text) < F)%nat ->
+  root_loop F acc (elines text) = read_into acc text.
+Proof. exact reader_fuel_irrelevant. Qed.
+Print Assumptions C12_reader_fuel_irrelevant.
 
 (* parameter indices: the decimal form parses back *)
 Theorem C12_index_roundtrip : forall n, n < usize_bound -> parse_usize (dec n) = Ok n /\ tokb (dec n) = true.
